@@ -355,7 +355,39 @@ def ep_hyperlink_repointed(env, s):
     return s if got == (other, s) else repr(got)
 
 
+def ep_hyperlink_shared(env, s):
+    """two links on one slide given the SAME address (they share one relationship); one is then re-pointed or cleared;
+    the untouched one must still read `s`, also after a save and re-open"""
+    import io as _io
+
+    from pptx import Presentation
+
+    tf = env.slide.shapes.add_textbox(0, 0, 9, 9).text_frame
+    r1 = tf.paragraphs[0].add_run(); r1.text = "1"
+    r2 = tf.paragraphs[0].add_run(); r2.text = "2"
+    r1.hyperlink.address = s
+    r2.hyperlink.address = s
+    r1.hyperlink.address = None if len(s) % 2 else "http://other.example/?" + str(len(s))
+    if len(s) % 3 == 0:
+        r3 = tf.paragraphs[0].add_run(); r3.text = "3"; r3.hyperlink.address = "http://third.example/"
+    try:
+        got = r2.hyperlink.address
+    except KeyError as e:
+        return "KeyError(%s)" % e
+    if got != s:
+        return repr(got)
+    b = _io.BytesIO(); env.prs.save(b)
+    prs2 = Presentation(_io.BytesIO(b.getvalue()))
+    idx = [x.slide_id for x in env.prs.slides].index(env.slide.slide_id)
+    runs = [r for sh in prs2.slides[idx].shapes if sh.has_text_frame for r in sh.text_frame.paragraphs[0].runs if r.text == "2"]
+    try:
+        return runs[-1].hyperlink.address
+    except KeyError as e:
+        return "KeyError(%s) after re-open" % e
+
+
 ENTRY_POINTS.append(("run hyperlink address, after another link was re-pointed", lambda s: s != "", ep_hyperlink_repointed))
+ENTRY_POINTS.append(("run hyperlink address shared by two runs, the other one re-pointed or cleared", lambda s: s != "", ep_hyperlink_shared))
 ENTRY_POINTS.append(("placeholder name, then insert_picture", lambda s: True, ep_ph_name_then_insert))
 ENTRY_POINTS.append(("shape name, then grouped", lambda s: True, ep_shape_name_then_group))
 ENTRY_POINTS.append(("date categories number_format", lambda s: s != "", ep_date_cat_number_format))
